@@ -304,7 +304,9 @@ func (p *poller) readWriteLoop() {
 										_ = c.closeWithError(err)
 										break
 									}
-									if n < bufLen {
+									if n < bufLen && !c.IsUDP() {
+										// a datagram read is always short, only a short
+										// stream read means there is no more data.
 										break
 									}
 								}
